@@ -32,6 +32,9 @@ PROPS = {
     "C06": {"count": {"quick": 3000, "thorough": 60000},
             "trusted": SOCK_TRUSTED + ["parameter: QRegExp and the middleware verdicts (theorems hold for every matcher and every verdict assignment)"],
             "rule": "as C05 with 40% refusing middleware; refusers write a 403 marked with their id so the wire shows who answered"},
+    "C09": {"count": {"quick": 4000, "thorough": 100000},
+            "trusted": SOCK_TRUSTED + ["modelled, not verified: QByteArray::fromBase64 (Qt's lenient decoder), QByteArray::split(' '), QMap lookup; credentials are compared as UTF-8 bytes (the harness registers well-formed NUL-free text)"],
+            "rule": "credential tables of <= 4 users (prefixes / case variants of each other, empty password, ':' in password) x Authorization values: valid, near misses (scheme case, two spaces, tab, trailing space, missing colon, stripped padding, junk inside the token, NUL / BOM / invalid UTF-8 in the payload, other users' passwords), repeated headers, random bytes; through BasicAuthMiddleware attached to a Handler on a Socket over SimTcp"},
     "C16": {"count": {"quick": 400, "thorough": 6000},
             "trusted": ["translated from the C++ on every run (tools/cxx2lean.py, clang-14 AST): Range::from/to/length/isValid/dataSize and the numeric constructor; bridge theorems QhttpBridge.Range prove them equal to the hand model",
                         "modelled, not verified: the string constructor (QRegExp ^(\\d*)-(\\d*)$, QString::trimmed, QString::toInt) for ASCII text, QString::number; validated by the exhaustive/boundary correspondence runs",
@@ -56,6 +59,8 @@ LEVEL = {
          "QRegExp is a parameter; sub-handler patterns are assumed start-anchored as documented for the prefix-removal clause; QString::arg modelled."),
  "C06": ("Theorems: the middleware consulted are exactly the chain's up to and including the first refusal, in attachment order; after a refusal no redirect, sub-handler or processing action exists and the wire is the refuser's response; tie: as C05 with scripted refusing middleware.",
          "as C05."),
+ "C09": ("Theorems: the middleware's verdict equals the property's reading (Basic in any case, one space, base64 of user:password cut at the first colon, exact registered pair) for every header value and table; base64 round trip; every refusal is one 401 with the realm challenge; tie: near-miss and random Authorization values through the real middleware.",
+         "fromBase64 modelled (lenient decoder); QString conversion of credentials is covered by the round-trip guard in the repaired code."),
  "C16": ("Theorems over Int (every offset and size): valid => 0<=from<=to<size, length, text; invalid => -1 and */size; valid iff one of the three shapes; string forms; copy/resize preserve bounds; the accessor code is regenerated from range.cpp on every run and bridge-proved equal to the model, and the compiled class is compared with the model on an exhaustive cube and on all short strings.",
          "string constructor modelled for ASCII text only; QRegExp/QString are Qt."),
 }
